@@ -372,11 +372,18 @@ int main(int argc, char **argv){
   myth_globalattr_set_n_workers(&ga, vo.nworkers);
   myth_globalattr_set_bind_workers(&ga, 0);
   myth_init_ex(&ga);
-  for (i = 0; i < MAXO; i++){
-    myth_mutex_init(&mtx[i], 0); myth_cond_init(&cnd[i], 0); myth_barrier_init(&bar[i], 0, bar_n[i]);
-    myth_join_counter_init(&jcs[i], 0, jc_n[i]); myth_uncond_init(&ucs[i]); myth_felock_init(&fes[i], 0);
-    onces[i].state = 0;
-  }
+  /* the objects live in memory that is NOT zero when they are initialised (as in a recycled heap block or an
+     automatic variable), and half of the runs pass explicit (default) attribute objects instead of NULL */
+  { int with_attr = (vo.seed & 1);
+    myth_mutexattr_t ma; myth_condattr_t ca; myth_barrierattr_t ba; myth_join_counterattr_t ja; myth_felockattr_t fa;
+    myth_mutexattr_init(&ma); myth_condattr_init(&ca); myth_barrierattr_init(&ba); myth_join_counterattr_init(&ja); myth_felockattr_init(&fa);
+    memset(mtx, 0x5a, sizeof mtx); memset(cnd, 0x5a, sizeof cnd); memset(bar, 0x5a, sizeof bar);
+    memset(jcs, 0x5a, sizeof jcs); memset(ucs, 0x5a, sizeof ucs); memset(fes, 0x5a, sizeof fes);
+    for (i = 0; i < MAXO; i++){
+      myth_mutex_init(&mtx[i], with_attr ? &ma : 0); myth_cond_init(&cnd[i], with_attr ? &ca : 0); myth_barrier_init(&bar[i], with_attr ? &ba : 0, bar_n[i]);
+      myth_join_counter_init(&jcs[i], with_attr ? &ja : 0, jc_n[i]); myth_uncond_init(&ucs[i]); myth_felock_init(&fes[i], with_attr ? &fa : 0);
+      onces[i].state = 0;
+    } }
   if (ws_mode) myth_wsapi_set_stealfunc(ws_steal);
   vrt_arm(&vo, myth_self());
   U("U_BodyStart", 2, 0L, 0L);
